@@ -51,7 +51,7 @@ static Reg r_fwd("utmfwd", [](const Args& a) {
       bool utmp = z1 > 0, np = !std::signbit(lat);
       // (the implementation also refuses, with its own message, points more than 60 degrees from the central meridian / 20 degrees from the pole;
       //  the header does not mention these two tests — near a pole they are not implied by the ranges — so they are left out of the oracle)
-      bool refused = utmp ? !(Math::AngDiff(doc::central_meridian(z1), lon) <= 60) : std::fabs(lat) < 70;
+      bool refused = utmp ? !(std::fabs(Math::AngDiff(doc::central_meridian(z1), lon)) <= 60) : std::fabs(lat) < 70;
       if (!refused && doc::strictly_inside(doc::range(utmp, np, mg), kx + doc::false_easting(utmp), ky + doc::false_northing(utmp, np)))
         bad("documented-range", "UTMUPS::Forward throws although the projected point lies strictly inside the documented range");
     }
